@@ -294,6 +294,9 @@ func judge(cfg config, pre []api.Pin, c call, res result, post []api.Pin, log []
 	if cfg.Follower {
 		role = "follower"
 	}
+	if cfg.ConsFail != "" {
+		role += "+consensus-fails:" + cfg.ConsFail
+	}
 
 	// which CID does the request address?
 	target := c.Cid
